@@ -212,7 +212,7 @@ func c02Body(p *Prog, r *Report, R1, R2, R3, R4, R5 string) {
 				why := firstNonEmpty(
 					want("public key", arg(t, 0), "param:0.verificationKey"),
 					want("hash", arg(t, 1), "const:6"),
-					want("digest", arg(t, 2), "hash<crypto/sha512.New384>("+authInput(T)+")"),
+					want("digest", arg(t, 2), "hash<sha384>("+authInput(T)+")"),
 					want("signature", arg(t, 3), T+".Authenticator"),
 					want("options", arg(t, 4), tPSSOpts),
 				)
